@@ -121,6 +121,10 @@ def cases(tier, seed):
                     pairs = [(rng.choice(P), rng.choice(P)) for _ in range(150 if d == 2 else 60)]
                 for i, (x, y) in enumerate(pairs):
                     add(cfg, x, y, routes[i % 3])
+    # configuration fuzz: every construction axis at once (signature order, start index, custom basis, options, derivation)
+    for i in range(250 if tier == 'quick' else 2500):
+        cfg, dd = pat.random_cfg(rng)
+        add(cfg, pat.random_pattern(rng, dd), pat.random_pattern(rng, dd), routes[i % 3])
     # algebras DERIVED from another one with dataclasses.replace: the product must follow the derived algebra's own table
     for cfg in (dict(p=2, derive=dict(signature=[1, -1])), dict(p=3, derive=dict(signature=[1, 1, 0])), dict(p=2, derive=dict(cse=False)),
                 dict(p=1, q=1, derive=dict(signature=[-1, 1])), dict(p=3, derive=dict(signature=[-1, 1, 0], start_index=1))):
